@@ -23,11 +23,17 @@
 (*   EarlyReturnOnForeign  cacheSwap returns as soon as the cache hands it a block of      *)
 (*                    another Reader (ErrContaminatedCache), without offering the current  *)
 (*                    block to the cache; repaired (d7bbfb4): such a block is a miss       *)
+(*   KeepCurAfterKeep nextBlock keeps, as the current block, a block it has just handed to  *)
+(*                    the cache (`bg.current = nil` missing after keep): the next load       *)
+(*                    decompresses into a block the cache lists (seeded change C03-B)        *)
 (* Environment switches:                                                                  *)
 (*   KeepOnGet        the cache's Get leaves a used block in the cache (cache.FIFO);       *)
 (*                    its Put answers (nil, false) for a block it is still holding         *)
 (*   Foreign          members for which the cache arrives holding a block of another       *)
 (*                    Reader of the same stream (a shared or previously used cache)        *)
+(*   RealCache        a full cache refuses a block that has not been used and makes room for  *)
+(*                    one that has (what LRU, FIFO and Random all do); FALSE: policy-free, a   *)
+(*                    full cache may refuse or evict anything                                  *)
 (* A block object carries `used` (bytes were read from it): set when the caller reads,     *)
 (* reset only when the object is first made or taken over from another owner - the code    *)
 (* does not reset it when it recycles one of its own blocks.                               *)
@@ -38,7 +44,7 @@ CONSTANTS N,            \* members 1..N
           MaxOps,       \* API operations explored per behaviour
           FaultAt,      \* member whose read fails with an I/O error (0 = none)
           KeepStaleOnFail, PanicOnMiss, BareCtlSend, KeepFoundBlock, SilentSeekHit,
-          EarlyReturnOnForeign, KeepOnGet, Foreign
+          EarlyReturnOnForeign, KeepCurAfterKeep, KeepOnGet, Foreign, RealCache
 ASSUME Foreign \subseteq 1..N /\ Cardinality(Foreign) <= CAP
 
 Dec == 1..RD
@@ -88,7 +94,8 @@ PutOutcomes(b) ==
   ELSE IF <<blk[b].base, b>> \in cache THEN {<<NoBlk, FALSE, cache>>}     \* the cache still holds b: not available for reuse
   ELSE IF blk[b].base \in CacheKeys THEN {<<b, FALSE, cache>>}
   ELSE IF Cardinality(cache) < CAP THEN {<<NoBlk, TRUE, cache \cup {<<blk[b].base, b>>}>>}
-  ELSE {<<b, FALSE, cache>>} \cup {<<e[2], TRUE, (cache \ {e}) \cup {<<blk[b].base, b>>}>> : e \in cache}
+  ELSE IF RealCache /\ ~blk[b].used THEN {<<b, FALSE, cache>>}
+  ELSE (IF RealCache THEN {} ELSE {<<b, FALSE, cache>>}) \cup {<<e[2], TRUE, (cache \ {e}) \cup {<<blk[b].base, b>>}>> : e \in cache}
 
 \* ------------------------------------------------------------------ nextBlockAt, shared
 \* step 1: `for { exists, next := cacheHasBlockFor(off); if !exists { break }; off = next }`
@@ -191,8 +198,8 @@ SwapGet(pcGet, pcHit, pcMiss, pcSkip) ==
        THEN LET b == CHOOSE b \in CachedFor(cbase) : TRUE
                 stays == KeepOnGet /\ (IF b < 0 THEN TRUE ELSE blk[b].used)
             IN /\ cache' = IF stays THEN cache ELSE {e \in cache : e[1] # cbase}
-               /\ IF b < 0
-                  THEN \* a block of another Reader: ErrContaminatedCache
+               /\ IF b < 0 \/ ~HasData(b)
+                  THEN \* a block of another Reader (ErrContaminatedCache), or one that cannot be rewound (it holds nothing)
                        /\ cpc' = IF EarlyReturnOnForeign THEN pcSkip ELSE pcMiss
                        /\ UNCHANGED cdec
                   ELSE /\ cdec' = b            \* remembered in cdec until the Put is done
@@ -225,23 +232,28 @@ NRecv == /\ cpc = "n.recv"
             ELSE /\ working # <<>>
                  /\ cdec' = Head(working) /\ working' = Tail(working) /\ cpc' = "n.wait" /\ UNCHANGED ci
          /\ UNCHANGED <<cur, cerr, want, cbase, coff, nops, cfound, waiting, control, closedCh, cache>> /\ UNCHANGED sVars /\ UNCHANGED aVars
+\* `bg.current, err = dec.wait(); bg.waiting <- dec`, then the comparison with the wanted base
 NWait == /\ cpc = "n.wait" /\ dwg[cdec] = 0
          /\ LET b == dblk[cdec]
                 e == derr[cdec]
             IN /\ dblk' = [dblk EXCEPT ![cdec] = NoBlk]
                /\ waiting' = Append(waiting, cdec)
+               /\ cur' = b
                /\ IF blk[b].base = cbase
-                  THEN /\ cur' = b /\ cerr' = e /\ cpc' = "idle" /\ ci' = 0 /\ UNCHANGED cache
+                  THEN /\ cerr' = e /\ cpc' = "idle" /\ ci' = 0
                   ELSE IF e = "nil"
-                  THEN \* keep(current); current = nil
-                       /\ \E o \in PutOutcomes(b) : cache' = o[3]
-                       /\ cur' = NoBlk /\ ci' = ci + 1 /\ cpc' = "n.recv" /\ UNCHANGED cerr
+                  THEN /\ cpc' = "n.keep" /\ UNCHANGED <<cerr, ci>>
                   ELSE \* a failed block that is not the wanted one
-                       /\ cur' = b /\ UNCHANGED <<cache, cerr>>
+                       /\ UNCHANGED cerr
                        /\ IF PanicOnMiss THEN ci' = ci + 1 /\ cpc' = "n.recv"
                           ELSE ci' = 0 /\ cpc' = "s.select"
          /\ cdec' = 0
-         /\ UNCHANGED <<blk, nalloc, derr, dwg, head, filepos, inflating, working, control, closedCh, want, cbase, coff, nops, cfound>> /\ UNCHANGED aVars
+         /\ UNCHANGED <<blk, nalloc, derr, dwg, head, filepos, inflating, working, control, closedCh, cache, want, cbase, coff, nops, cfound>> /\ UNCHANGED aVars
+\* `bg.keep(bg.current); bg.current = nil` (a separate step: the decompressor has been handed back already)
+NKeep == /\ cpc = "n.keep"
+         /\ \E o \in PutOutcomes(cur) : cache' = o[3]
+         /\ cur' = (IF KeepCurAfterKeep THEN cur ELSE NoBlk) /\ ci' = ci + 1 /\ cpc' = "n.recv"
+         /\ UNCHANGED <<cerr, want, cdec, cbase, coff, nops, cfound>> /\ UNCHANGED sVars /\ UNCHANGED chVars /\ UNCHANGED aVars
 
 \* Until fix 2bc52f5 the synchronous (demand) load also skipped members the cache reports, like the
 \* read-ahead does (SyncSkips = TRUE: the as-coded behaviour; harmless in this model, whose cache never
@@ -334,7 +346,7 @@ Terminated == cpc \in {"closed", "panic"} /\ UNCHANGED vars
 Next == \/ ATake \/ ACtl \/ APeek \/ ARead \/ ASend
         \/ (\E d \in Dec : Inflate(d))
         \/ StartNext \/ StartTouch \/ (\E m \in 1..N : StartSeek(m))
-        \/ NGet \/ NHit \/ NMiss \/ NRecv \/ NWait
+        \/ NGet \/ NHit \/ NMiss \/ NRecv \/ NWait \/ NKeep
         \/ YUse \/ YPeek \/ YRead \/ YWait \/ YDrain
         \/ SelWaiting("s") \/ SelWorking("s") \/ SelWWait("s") \/ SFound
         \/ SGet \/ SHit \/ SHitCtl \/ SMiss \/ SInBlock
